@@ -131,6 +131,113 @@ fn check_wire(code: u16, wire: &[u8]) -> Result<(), String> {
     }
 }
 
+
+const BB_HEAD_CL: usize = 57; // "HTTP/1.1 200 OK\r\nContent-Length: 20\r\nX-Test: abcdefgh\r\n\r\n"
+const BB_HEAD_CH: usize = 47; // "HTTP/1.1 200 OK\r\nTransfer-Encoding: chunked\r\n\r\n"
+const BB_HEAD_CD: usize = 38; // "HTTP/1.1 200 OK\r\nConnection: close\r\n\r\n"
+const BB_CHUNKED: usize = 35;
+
+/// classes a client may observe for a fault script (documented behaviour, independent of the model)
+fn bb_expected(kind: &str, k: usize) -> (Vec<String>, Option<usize>) {
+    let d = |n: u32| format!("default {n}");
+    match kind {
+        "close_at" | "reset_at" | "chunked_close_at" | "stall_after" => {
+            let (head, full) = if kind == "chunked_close_at" { (BB_HEAD_CH, BB_HEAD_CH + BB_CHUNKED) } else { (BB_HEAD_CL, BB_HEAD_CL + 20) };
+            let lost = if kind == "stall_after" { d(504) } else { d(502) };
+            if k >= full {
+                (vec!["relay".into()], Some(20))
+            } else if k < head {
+                (vec![lost], None)
+            } else {
+                (vec![lost, "abort".into()], None)
+            }
+        }
+        "close_delim_at" => {
+            if k >= BB_HEAD_CD {
+                (vec!["relay".into()], Some(k.min(BB_HEAD_CD + 20) - BB_HEAD_CD))
+            } else {
+                (vec![d(502)], None)
+            }
+        }
+        "refuse" | "nobackend" => (vec![d(503)], None),
+        "stall" => (vec![d(504)], None),
+        "garbage" => (vec![d(502)], None),
+        "nohost" => (vec![d(404)], None),
+        "redirect" => (vec![d(301)], None),
+        "slow_client" => (vec![d(408)], None),
+        _ => (vec![], None),
+    }
+}
+
+fn blackbox(kind: &str, k: usize, out: &mut Out) {
+    let exe = std::env::current_exe().unwrap().with_file_name("c02bb");
+    let dir = std::env::temp_dir().join(format!("c02bb-replay-{}", std::process::id()));
+    let _ = std::fs::create_dir_all(&dir);
+    let f = dir.join("scn.txt");
+    std::fs::write(&f, format!("scn 0 {kind} {k}\n")).unwrap();
+    let o = match std::process::Command::new(&exe).arg(&f).current_dir(&dir).output() {
+        Ok(o) => o,
+        Err(e) => {
+            out.note(&format!("invalid-case: cannot run {exe:?}: {e}"));
+            return;
+        }
+    };
+    let _ = std::fs::remove_dir_all(&dir);
+    let text = String::from_utf8_lossy(&o.stdout).to_string();
+    let mut seen = vec![];
+    for line in text.lines().filter(|l| l.starts_with("res ")) {
+        let get = |key: &str| -> i64 {
+            line.split_whitespace().find_map(|w| w.strip_prefix(&format!("{key}="))).and_then(|v| v.parse().ok()).unwrap_or(0)
+        };
+        let (status, complete, eof, hang, body, extra) = (get("status"), get("complete"), get("eof"), get("hang"), get("body"), get("extra"));
+        let class = if hang != 0 {
+            "hang".to_string()
+        } else if complete != 0 && status == 200 {
+            "relay".to_string()
+        } else if complete != 0 && status != 0 {
+            format!("default {status}")
+        } else if eof != 0 {
+            "abort".to_string()
+        } else {
+            "none".to_string()
+        };
+        out.note(&format!("black-box {kind} {k}: {line} => {class}"));
+        if hang != 0 {
+            out.viol("bb-hang", &format!("{kind} {k}: no answer and no close within the deadline"));
+        }
+        if extra != 0 {
+            out.viol("bb-two-answers", &format!("{kind} {k}: {extra} bytes follow a complete response"));
+        }
+        if class == "abort" && status == 0 && kind != "slow_client" {
+            out.viol("bb-no-answer", &format!("{kind} {k}: no answer: the client got no byte, only a close"));
+        }
+        seen.push((class, body as usize));
+    }
+    if seen.is_empty() {
+        out.viol("bb-no-result", &format!("{kind} {k}: no result from the black-box driver"));
+        return;
+    }
+    if kind == "keepalive_close" {
+        let ok = seen.len() == 2 && seen[0].0 == "relay" && ["relay", "default 502", "default 503"].contains(&seen[1].0.as_str());
+        if !ok {
+            out.viol("bb-keepalive", &format!("keepalive_close: observed {:?}", seen));
+        }
+        return;
+    }
+    let (want, blen) = bb_expected(kind, k);
+    let (got, body) = &seen[0];
+    if !want.is_empty() && !want.contains(got) {
+        out.viol("bb-mismatch", &format!("{kind} {k}: client observed '{got}', documented {want:?}"));
+    }
+    if got == "relay" {
+        if let Some(n) = blen {
+            if *body != n {
+                out.viol("bb-body", &format!("{kind} {k}: relayed body has {body} bytes, backend sent {n}"));
+            }
+        }
+    }
+}
+
 const DOCUMENTED: [u16; 12] = [301, 302, 308, 400, 401, 404, 408, 421, 429, 502, 503, 504];
 
 fn run(case: &Case, out: &mut Out) {
@@ -188,6 +295,9 @@ fn run(case: &Case, out: &mut Out) {
                         (0, 0)
                     } else if !s.context.keep_alive_backend {
                         (1, 0)
+                    } else if !s.back.consumed {
+                        // nothing of the response reached the client: 502, not a silent abort
+                        (3, 502)
                     } else {
                         (2, 0)
                     }
@@ -261,9 +371,9 @@ fn run(case: &Case, out: &mut Out) {
                 }
             }
             "blackbox" => {
-                // a black-box scenario (kind, k): re-run it with the c02bb binary
-                // (`c02bb <file with: scn 0 <kind> <k>>`); nothing to do in-process
-                out.note("black-box scenario: replay with .build/cargo-target/release/c02bb");
+                // replay of a black-box scenario: run the sibling binary on this one
+                // scenario and judge what the client saw with the property's own table
+                blackbox(a[0].s(), a[1].n() as usize, out);
                 out.obs(&[]);
             }
             other => {
